@@ -597,3 +597,14 @@ def c17_args(ctx, case):
         ctx.check(len(hits) >= 1,
                   "result of the %s rule equals none of the explicit-NSIG results for NSIG in 0..%d"
                   % (case["criteria"], P - 1), sig={"kind": kind})
+
+
+# ---- number-type invariance (integer samples of a narrow dtype) -------------------
+from vlib import dtypecheck as _dt   # noqa: E402
+
+
+@sub("C17.dtype", strategy=_dt.int_case(sorted(_dt.TABLES["C17"])), quick=300, thorough=6000,
+     doc="the same integer-valued samples stored as int16/int8/uint8/uint16/int32/int64 or as float64 give the same result "
+         "(products of two narrow integers do not fit their dtype): " + ", ".join(sorted(_dt.TABLES["C17"])))
+def c17_dtype(ctx, case):
+    _dt.body(ctx, case, _dt.TABLES["C17"])
